@@ -362,11 +362,14 @@ static void *ares_event_thread(void *arg)
       /* The event backends take the timeout as an int number of milliseconds.
        * Waking up early is harmless (the timeout is recomputed on every
        * iteration), an overflowed or negative value is not. */
-      if (tvout->tv_sec >= (INT_MAX / 1000) - 1) {
+      if (tvout->tv_sec > (INT_MAX / 1000)) {
         timeout_ms = (unsigned long)INT_MAX;
       } else {
-        timeout_ms = (unsigned long)((tvout->tv_sec * 1000) +
-                                     (tvout->tv_usec / 1000) + 1);
+        timeout_ms = ((unsigned long)tvout->tv_sec * 1000) +
+                     (unsigned long)(tvout->tv_usec / 1000) + 1;
+        if (timeout_ms > (unsigned long)INT_MAX) {
+          timeout_ms = (unsigned long)INT_MAX;
+        }
       }
     }
 
